@@ -42,15 +42,15 @@ MC = {
 # (proto, n, t, dealer, byz)
 NETS = {
     'quick': [('qual', 3, 1, 0, [0]), ('qual', 4, 1, 0, [0]), ('qual', 5, 2, 0, [0, 1]), ('qual', 4, 1, 0, [2]),
-              ('jf', 3, 1, 0, [0]), ('jf', 4, 1, 0, [3]), ('jf', 5, 2, 0, [1, 3])],
+              ('jf', 3, 1, 0, [0]), ('jf', 4, 1, 0, [3]), ('jf', 5, 2, 0, [1, 3]), ('jf', 3, 2, 0, [0, 2])],   # the last one: t = n-1
     'thorough': [('qual', 3, 1, 0, [0]), ('qual', 4, 1, 0, [0]), ('qual', 5, 2, 0, [0, 1]), ('qual', 4, 1, 0, [2]),
                  ('qual', 7, 3, 2, [2, 4, 6]), ('qual', 6, 2, 5, [5, 0]),
                  ('jf', 3, 1, 0, [0]), ('jf', 4, 1, 0, [3]), ('jf', 5, 2, 0, [1, 3]), ('jf', 7, 3, 0, [0, 3, 6]),
-                 ('jf', 6, 2, 0, [2])],
+                 ('jf', 6, 2, 0, [2]), ('jf', 3, 2, 0, [0, 2]), ('qual', 2, 1, 0, [0]), ('jf', 2, 1, 0, [1]), ('qual', 4, 3, 1, [1, 2, 3]), ('jf', 4, 3, 0, [3])],
 }
 SIM_N = {'quick': 150, 'thorough': 1500}
 RND_N = {'quick': 400, 'thorough': 8000}
-GRID_N = {'quick': (917, 11), 'thorough': (10080, 1)}   # (count, stride) over the 10080 systematic strategies x orders
+GRID_N = {'quick': (916, 11), 'thorough': (5040, 1)}   # (count, stride) over the 5040 systematic strategies x orders; the stride is coprime with 5040
 
 
 def as_map(x):
